@@ -285,3 +285,14 @@ PLAN["C15"]["rule"] += ("; TestC15Decode: byte streams of 1-4 reference-encoded 
 
 PLAN["C07"]["quick"]["tests"].append({"run": "TestC07Kill", "shards": 3, "checks": 1, "timeout": 140, "shrink": "1s"})
 PLAN["C07"]["thorough"]["tests"].append({"run": "TestC07Kill", "shards": 6, "checks": 12, "timeout": 860, "shrink": "1s"})
+PLAN["C07"]["rule"] += ("; kill tier (TestC07Kill): the rebuilding replica is the repository's own binary (`jiva replica --frontendIP <controller>`, its sync agent beside it) started on an empty "
+                        "directory or on a stale copy of the departed replica's, so AutoConfigureReplica, checkAndResetFailedRebuild, sync.Task.AddReplica, the ssync transfers and reloadAndVerify run as "
+                        "shipped; the process is killed (-9) at generated points (listed WO / rebuilding flag persisted / first file arrived / promoted, plus a delay) and restarted on the same directory "
+                        "(also whenever it exits by itself, as its pod would be), with foreground writes through the controller all along; every read through the controller must return the acknowledged "
+                        "data and must have been served by a healthy replica while the child is not RW, never two WO entries, and at every promotion chain, revision counter, live image and user "
+                        "snapshots of the child's directory equal the source's and the model")
+PLAN["C08"]["rule"] += ("; in the failed-call runs the victim may perform a follow-up on the same replica object after the operation under test (close, a rewrite of volume.meta, or both; the injected "
+                        "fault is transient): whatever a failed operation left in memory must not reach the disk - the directory is compared after the follow-up")
+PLAN["C15"]["rule"] += ("; in half of the stall scripts the peer falls silent after a generated number of replies, so that other requests (own deadlines 25 s away) are pending when the stalled one times out")
+PLAN["C19"]["rule"] += ("; variant: the clone process runs with MAX_CHAIN_LENGTH=2, so that create, open and the file copy work but its reload onto a copied chain of more than one snapshot fails: it must end in "
+                        "status error and is never readable")
